@@ -13,7 +13,11 @@ Decided (for every key / message / history):
   select     finish: every `(h & !mask) | g` selection has its other arm masked with the same mask
   padding    finish writes the 0x01 marker at buffer[leftover] and zero-fills buffer[leftover+1..16]
   (typestate rules of the object are decided under C09 and re-evaluated here)
-Not decided: the 25 limb products as numbers, limb bounds (tier 2 intervals)."""
+  bounds     interval abstract interpretation (cxsa/bounds.py, props/polybounds.py): r limbs bounded by their clamp masks;
+             the bounds of h are an inductive invariant of block for every history; no overflow assert in block / finish
+             can fire and every u64 carry fits the u32 it is narrowed to; after finish's full carry (partitioned on the
+             single-bit carries) every limb is a reduced radix-2^26 digit where the limbs are repacked by OR
+Not decided: the tag as a number; decided are the necessary conditions above."""
 import re
 
 from .. import mir, pred, rules, bitprov, ssa, radix
@@ -216,6 +220,16 @@ def check_input(ctx, P):
     ctx.check(len(rets) == 1, "stream", "input:partial", "after topping up the buffer, input returns iff leftover < 16 (a full buffer is processed)", "Poly1305::input's buffered-block test is not `leftover < 16`", where=fn.where(), key="stream:input:partial")
 
 
+def check_all(ctx, P):
+    """every Poly1305 rule of this module (shared with C06 / C07, whose tags are Poly1305 tags)"""
+    ctx.guard("clamp", "new", lambda: check_new(ctx, P))
+    ctx.guard("radix", "block", lambda: check_block(ctx, P))
+    ctx.guard("radix", "finish", lambda: check_finish(ctx, P))
+    ctx.guard("stream", "input", lambda: check_input(ctx, P))
+    from . import polybounds
+    ctx.guard("bounds", "poly1305", lambda: polybounds.check(ctx, P))
+
+
 def run(ctx):
     P = ctx.prog("K0")
     ctx.guard("clamp", "new", lambda: check_new(ctx, P))
@@ -224,4 +238,6 @@ def run(ctx):
     ctx.guard("stream", "input", lambda: check_input(ctx, P))
     ctx.guard("poly1305", "typestate", lambda: C09.check_poly1305(ctx, P))
     ctx.trusted.append("ssa term evaluator transfer functions (cxsa/ssa.py) and the radix-weight rules (cxsa/radix.py)")
-    ctx.not_decided += ["the 25 limb products and the carry values as numbers", "limb bounds / absence of u32 overflow in block (tier 2 interval analysis)"]
+    from . import polybounds
+    ctx.guard("bounds", "poly1305", lambda: polybounds.check(ctx, P))
+    ctx.not_decided += ["the tag as a number beyond: radix-weight consistency of every product / carry, limb bounds (inductive), absence of overflow, digit reduction before the repack, clamp and select rules"]
